@@ -313,6 +313,8 @@ def run(check, an: Analysis):
     c04.check_task_close(check, an, 'X')
     # ---- typestate ----------------------------------------------------------
     _scope.check_typestate(check, an)
+    from . import _scope as _sc
+    _sc.check_scope_core(check, an, skip=('foreign', 'task-close'))
     check.stats.update(an.stats())
 
 
